@@ -1300,7 +1300,10 @@ class Fraction(Expression):
 
     def to_y0(self, parens: bool = True) -> str:
         """Output this fraction as y0 internal DSL code."""
-        s = f"({self.numerator.to_y0()} / {self.denominator.to_y0()})"
+        denominator = self.denominator.to_y0()
+        if isinstance(self.denominator, Product):
+            denominator = f"({denominator})"
+        s = f"({self.numerator.to_y0()} / {denominator})"
         return f"({s})" if parens else s
 
     def __mul__(self, expression: Expression) -> Expression:
